@@ -523,7 +523,45 @@ def rule_10(ctx):
         ctx.expect(S.same(got, want), anchor, f'operands read from cells holding zero: {f}',
                    f'{f} over A1=0, B1=0.0, C1=3, D1=-2 evaluates to {got!r}; the operator applied to those numbers gives {want!r}: a cell that holds '
                    '0 is the number 0, not an empty cell')
-    ctx.floor(70, 'workbook formulas')
+    # numeric literals in every plain notation (a digit is not needed on both sides of the decimal point)
+    lit = {'A1': 3, 'L1': ('=.5+1', 1.5), 'L2': ('=2*.5', 1.0), 'L3': ('=5.+1', 6.0), 'L4': ('=2^.5', 2 ** 0.5), 'L5': ('=A1-.25', 2.75), 'L6': ('=SUM(.5,5.,1.)', 6.5),
+           'L7': ('=(.25)*4', 1.0), 'L8': ('=10/.5/5.', 4.0), 'L9': ('=.5^A1^2', 0.5 ** 3 ** 2 if False else (0.5 ** 3) ** 2), 'L10': ('=0.5+.5+5.', 6.0),
+           'L11': ('=12.75-.75', 12.0), 'L12': ('=-.5*2', -1.0), 'L13': ('=100*.01', 1.0), 'L14': ('=.5%*200', 1.0)}
+    lcells = {k: (v[0] if isinstance(v, tuple) else v) for k, v in lit.items()}
+    wb = W.Workbook(ctx, lcells)
+    for a, v in lit.items():
+        if not isinstance(v, tuple):
+            continue
+        got = wb.value('Sheet1!' + a)
+        ctx.expect(S.same(got, ('Number', v[1])), anchor, f'numeric literal notation: {v[0]}',
+                   f'{v[0]} (A1 = 3) evaluates to {got!r}, expected {v[1]!r}: .5 and 5. are the numbers 0.5 and 5')
+    # every public way of assigning numbers to the referenced cells, one after the other on one model
+    hist_ops = {'A1': 3, 'A2': 2, 'A3': 0}
+    hist_f = {'Z1': '=A1^A2^A3', 'Z2': '=A1-A2*A3', 'Z3': '=-A1^2+A2/4', 'Z4': '=(A1+A2)*A3-A1', 'Z5': '=A1*A2^2%'}
+    hcells = dict(hist_ops)
+    hcells.update(hist_f)
+    wb = W.Workbook(ctx, hcells)
+    cur = dict(hist_ops)
+    routes = [('Evaluator.set_cell_value', lambda a, v: wb.set(a, v)), ('Model.set_cell_value', lambda a, v: wb.set_model(a, v)),
+              ('set_cell_value with an XLCell address', lambda a, v: wb.set_cell(a, v)), ('Model.set_cell_value with an XLCell address', lambda a, v: wb.set_cell(a, v, through_model=True)),
+              ('Evaluator.set_cell_value', lambda a, v: wb.set(a, v))]
+    assignments = [{'A1': -1.5, 'A2': 4, 'A3': 7}, {'A1': 5, 'A2': 0, 'A3': -2}, {'A1': 2, 'A2': 3, 'A3': 2}, {'A1': 10, 'A2': -3, 'A3': 0.5}, {'A1': 0, 'A2': 1, 'A3': 1}]
+    for rname, setter in [('the compiled constants', None)] + list(zip([r[0] for r in routes], [r[1] for r in routes])):
+        if setter is not None:
+            new = assignments.pop(0)
+            for a, v in new.items():
+                setter('Sheet1!' + a, v)
+            cur.update(new)
+        for key in ('e', 'second evaluator'):
+            for z, f in hist_f.items():
+                got = wb.value('Sheet1!' + z, key=key)
+                want = eval_formula(ctx, f, {k: V.num(v) for k, v in cur.items()}, models=V.numpy_models())
+                if isinstance(want, tuple) and len(want) == 2 and want[0] == 'raise':
+                    continue
+                ctx.expect(S.same(got, want), anchor, f'{f} after assigning through {rname}' + ('' if key == 'e' else ' (second evaluator)'),
+                           f'{f} evaluates to {got!r} after {cur} was assigned through {rname}' + ('' if key == 'e' else ', on a second evaluator over the same model')
+                           + f'; the expression over those numbers is {want!r}')
+    ctx.floor(130, 'workbook formulas')
 
 
 RULES = [
